@@ -401,6 +401,75 @@ class FnWeaver:
         off = self.src.toks[cb][2]
         self.edits.append((off, off, [('\n' + '\n'.join(lines) + '\n', 'tmpl', self.tmpl_file, tline)]))
 
+    def hoist_exit(self, n, carry):
+        """D14: inside loop n, the innermost block that ends in the first `return;` of the loop body is moved behind the loop:
+               { STMTS return; }   becomes   { __hoistN = Some((vars)); break; }
+        with `let mut __hoistN: Option<(types)> = None;` declared before the loop and
+               if let Some((vars)) = __hoistN { STMTS return; }
+        right after it.  `carry` = [(name, type)...] are the loop-local values STMTS uses.  Same behaviour provided STMTS uses nothing
+        else that is local to the loop body: the block ran as the last thing before leaving the function, it still does."""
+        ls = self.loops()
+        if n < 1 or n > len(ls):
+            self.lost.append('loop %d of %s (function has %d loops)' % (n, self.qual, len(ls)))
+            return
+        s = self.src
+        kw, ob = ls[n - 1]
+        cb = s.matches()[ob]
+        # first `return` token inside the loop body
+        k = s.next_code(ob)
+        ret = None
+        while k is not None and k < cb:
+            if s.toks[k][0] == 'id' and s.tok_text(k) == 'return':
+                ret = k
+                break
+            k = s.next_code(k)
+        if ret is None:
+            self.lost.append('hoistexit: no return in loop %d of %s' % (n, self.qual))
+            return
+        semi = s.next_code(ret)
+        if not s.is_p(semi, ';'):
+            self.lost.append('hoistexit: `return` with a value in loop %d of %s' % (n, self.qual))
+            return
+        # innermost enclosing block
+        m = s.matches()
+        blk_open = None
+        j = s.prev_code(ret)
+        depth = 0
+        while j is not None and j > ob:
+            if s.is_p(j, '}') or s.is_p(j, ')') or s.is_p(j, ']'):
+                j = s.prev_code(m[j])          # skip nested closed groups
+                continue
+            if s.is_p(j, '{'):
+                blk_open = j
+                break
+            j = s.prev_code(j)
+        if blk_open is None:
+            blk_open = ob
+        blk_close = m[blk_open]
+        if s.next_code(semi) != blk_close:
+            self.lost.append('hoistexit: `return;` is not the last statement of its block in loop %d of %s' % (n, self.qual))
+            return
+        a, b = s.toks[blk_open][2], s.toks[blk_close][1]
+        stmts = self.text[a:s.toks[ret][1]]
+        names = ', '.join(x for x, _ in carry)
+        types = ', '.join(t for _, t in carry)
+        var = '__hoist%d' % n
+        nl = self.text[a:b].count('\n')
+        line0 = self.line_at(a)
+        self.edits.append((a, b, [(' %s = Some((%s,)); break; ' % (var, names) + '\n' * nl, 'repo', self.rel, line0)]))
+        # declaration before the loop keyword (before a label if there is one)
+        kw_off = s.toks[kw][1]
+        pk = s.prev_code(kw)
+        if pk is not None and s.is_p(pk, ':'):
+            lab = s.prev_code(pk)
+            if lab is not None and s.toks[lab][0] == 'life':
+                kw_off = s.toks[lab][1]
+        self.edits.append((kw_off, kw_off, [('let mut %s: Option<(%s,)> = None;\n' % (var, types), 'repo', self.rel, self.line_at(kw_off))]))
+        end = s.toks[cb][2]
+        self.edits.append((end, end, [('\nif let Some((%s,)) = %s {' % (names, var), 'repo', self.rel, line0),
+                                      (stmts, 'repo', self.rel, line0), ('return; }\n', 'repo', self.rel, line0)]))
+        self.rules.add('D14')
+
     def replace_arm(self, regex, replacement):
         """D8: the block of the match arm whose first line matches `regex` is replaced by `replacement` (nothing is concluded about that arm)"""
         rx = re.compile(regex)
@@ -587,11 +656,46 @@ class FnWeaver:
             segs = [('\n'.join(lines) + '\n', 'tmpl', self.tmpl_file, tline)]
         self.edits.append((off, off, segs))
 
+    def add_tail_hint(self, regex, nth, lines, tline):
+        """D15: the one-line tail expression EXPR matched by `regex` (a line without trailing `;`, the value of its block) becomes
+               let __tailK = EXPR;  <hint lines>  __tailK
+        so that a proof step can follow the call whose value the block yields.  Pure let-introduction."""
+        rx = re.compile(regex)
+        p = self.parts
+        body_a = self.src.toks[p['body_open']][2]
+        body_b = self.src.toks[p['body_close']][1]
+        pos = 0
+        hits = []
+        for ln in self.text.split('\n'):
+            a, b = pos, pos + len(ln)
+            pos = b + 1
+            if a >= body_a and b <= body_b and rx.search(ln):
+                hits.append((a, b, ln))
+        if len(hits) < nth:
+            self.lost.append('tail /%s/ #%d in %s' % (regex, nth, self.qual))
+            return
+        a, b, ln = hits[nth - 1]
+        body = ln.strip()
+        if body.endswith(';') or body.endswith('{') or body.endswith('}') or not body:
+            self.lost.append('tail /%s/ #%d in %s: not a one-line tail expression' % (regex, nth, self.qual))
+            return
+        self._tail_n = getattr(self, '_tail_n', 0) + 1
+        var = '__tail%d' % self._tail_n
+        ind = ln[:len(ln) - len(ln.lstrip())]
+        a2 = a + len(ind)
+        self.edits.append((a2, a2, [('let %s = ' % var, 'repo', self.rel, self.line_at(a))]))
+        self.edits.append((b, b, [(';\n', 'repo', self.rel, self.line_at(a)), ('\n'.join(lines) + '\n', 'tmpl', self.tmpl_file, tline),
+                                  (ind + var, 'repo', self.rel, self.line_at(a))]))
+        self.rules.add('D15')
+
     # -- rename the function (used for outlined copies) -----------------------------
     def render(self, out, attrs=()):
         for a in attrs:
             out.emit(a + '\n', 'tmpl', self.tmpl_file, 0, fn=self.qual)
         edits = sorted(self.edits, key=lambda e: (e[0], e[1]))
+        # a replaced region (rule D8) swallows the automatic edits that fall strictly inside it
+        spans = [(a, b) for (a, b, _) in edits if b > a]
+        edits = [e for e in edits if not any(x < e[0] and e[1] < y and (e[0], e[1]) != (x, y) for (x, y) in spans)]
         pos = 0
         for i, (a, b, segs) in enumerate(edits):
             if a < pos:
@@ -849,6 +953,13 @@ def weave(unit_path):
                     fw.add_end(blk, blk_line)
                 elif sd == 'loopend':
                     fw.add_loop_end(int(sarg), blk, blk_line)
+                elif sd == 'hoistexit':
+                    la = sarg.split(None, 1)
+                    carry = []
+                    for it in (la[1].split(';') if len(la) > 1 else []):
+                        nm, ty = it.split(':', 1)
+                        carry.append((nm.strip(), ty.strip()))
+                    fw.hoist_exit(int(la[0]), carry)
                 elif sd == 'afterloop':
                     fw.add_after_loop(int(sarg), blk, blk_line)
                 elif sd == 'replacearm':
@@ -866,6 +977,11 @@ def weave(unit_path):
                 elif sd == 'closure':
                     cn, hdr = sarg.split(None, 1)
                     fw.annotate_closure(int(cn), hdr)
+                elif sd == 'tail':
+                    mm2 = re.match(r'/(.*)/\s*(\d+)?$', sarg)
+                    if not mm2:
+                        raise WeaveError('%s:%d: bad anchor' % (trel, i + 1))
+                    fw.add_tail_hint(mm2.group(1), int(mm2.group(2) or 1), blk, blk_line)
                 elif sd in ('after', 'before'):
                     mm2 = re.match(r'/(.*)/\s*(\d+)?$', sarg)
                     if not mm2:
